@@ -18,7 +18,7 @@ qm_c06 — driver for M-Heap. One executor state; requests (S-expressions, one p
 INSTR ::= (const-int idx z) | (const-bin idx hex) | (const-undef idx) | pop | dup | (pick n) | (rotate n)
         | (load i) | store | (tuple tid size|none) | (get i) | (istype tid 0|1) | (jump t) | (jumpif t)
         | call | (tailcall 0|1) | (function fi caps|none) | (reset i) | (builtin i 0|1) | (equal n) | not
-        | spawn | send | self | (procref pid fn)
+        | spawn | send | (self fn|none) | (procref pid fn)
 v     ::= (i z) | (h n) | (c n) | (r n) | (t id v*) | (f id v*) | (bi id) | (p pid fn) | (res a b)
 
 Every answer is `<outcome> | <view>`; the view is the multiset (sorted) of `hex:count:reach` over
@@ -97,7 +97,7 @@ def parseInstr : Sx → Option Instr
   | .atom "not" => some .not
   | .atom "spawn" => some .spawn
   | .atom "send" => some .send
-  | .atom "self" => some .self
+  | .list [.atom "self", sw] => (parseOptNat sw).map .self
   | .list [.atom "procref", a, b] => do pure (.processRef (← a.asNat) (← b.asNat))
   | _ => none
 
